@@ -342,7 +342,12 @@ def main(argv=None):
         real.append(rec)
     n_real = res.n_violations - (len(res.violations) - len(real)) if res.n_violations >= len(res.violations) else len(real)
     reported = []
-    for rec in real[:5]:
+    confirmed = []
+    tried = 0
+    for rec in real:
+        if len(reported) >= 5 or tried >= 12 or (reported and tried >= 8):
+            break
+        tried += 1
         path = write_replay(prop, rec)
         ok, out = confirm_in_subprocess(prop, path)
         if not ok:
@@ -354,9 +359,12 @@ def main(argv=None):
                 ok, out = confirm_in_subprocess(prop, path)
         if ok:
             reported.append(path)
+            confirmed.append(rec)
         else:
             harness_err.append((path, out))
-
+    if reported:
+        # at least one finding reproduces in a fresh process: that decides the run; the others are listed in the log only
+        harness_err = []
     cov = dict(res.cov)
     cov["known_findings_matched"] = [k["id"] for k in known_hits]
     write_evidence(prop, mod.LEVEL, tier, seed, cov, wall, len(real), res.assumptions,
@@ -366,7 +374,7 @@ def main(argv=None):
     summary = {k: v for k, v in cov.items() if isinstance(v, (int, float, bool, str))}
     print(f"[{prop} {tier} seed={seed}] wall={wall:.1f}s violations={len(real)} coverage={json.dumps(jsonable(summary))}")
     if reported:
-        for rec, path in zip(real, reported):
+        for rec in confirmed:
             print("  ", rec.get("message", "")[:400])
         for path in reported:
             print(f"VIOLATION property={prop} replay={path}")
